@@ -316,6 +316,14 @@ def judge_geff(case, wd, rng):
         attrs = {k: v for k, v in r.items() if k not in (names["id"], names["parent_id"])}
         g.add_node(int(r[names["id"]]), **attrs)
     g.add_edges_from(case["int_edges"])
+    # edge properties, one of them imported under a key that is spelled like a node column
+    # of the position mapping (a valid edge mapping: node and edge keys live apart)
+    ekeys = {}
+    if case["int_edges"] and not case["malform"]:
+        for i_, (u_, v_) in enumerate(case["int_edges"]):
+            g.edges[u_, v_]["e_w"] = 0.5 + i_
+            g.edges[u_, v_]["e_d"] = -1.0 * i_
+        ekeys = {"w": "e_w", case["posnames"][0]: "e_d"}
     d = wd / "g.zarr"
     if d.exists():
         shutil.rmtree(d)
@@ -345,7 +353,8 @@ def judge_geff(case, wd, rng):
     with warnings.catch_warnings():
         warnings.simplefilter("ignore")
         try:
-            tracks = import_from_geff(d, node_name_map=nm)
+            tracks = import_from_geff(d, node_name_map=nm, edge_name_map=ekeys or None,
+                                      edge_features={k_: False for k_ in ekeys} or None)
         except Exception as e:
             if mal:
                 if isinstance(e, ValueError):
@@ -358,7 +367,18 @@ def judge_geff(case, wd, rng):
     if mal:
         return [("malformed-accepted", f"GEFF {mal} store was imported",
                  f"C12/geff/malformed/{mal}/accepted")]
-    return compare(case, tracks, "geff")
+    probs = compare(case, tracks, "geff")
+    if not probs and ekeys:
+        for (u_, v_) in case["int_edges"]:
+            for key_, src_ in ekeys.items():
+                got = tracks.get_edge_attr((u_, v_), key_)
+                if got is None or float(got) != float(g.edges[u_, v_][src_]):
+                    probs.append(("edge-property", f"edge ({u_},{v_}) {key_} (from {src_}): "
+                                  f"{got!r} != {g.edges[u_, v_][src_]!r}",
+                                  f"C12/geff/edge-property/"
+                                  f"{'w' if key_ == 'w' else 'key-like-node-column'}"))
+                    return probs
+    return probs
 
 
 def judge_df_with_seg(rng):
